@@ -623,7 +623,9 @@ impl Model {
         if t.ends_with('\r') {
             lone_cr = true;
         }
-        let bom_inside = t.contains('\u{feff}');
+        // (a second mark right at the start is an ordinary counted character of line 1: the
+        // parser ignores exactly one leading mark)
+        let bom_inside = t.strip_prefix('\u{feff}').unwrap_or(t).contains('\u{feff}');
         Model { lines, lone_cr, bom_inside, ends_with_newline: t.ends_with('\n') }
     }
     fn line(&self, n: usize) -> Option<&str> {
@@ -969,6 +971,13 @@ fn check_window(cx: &Ctx17, w: &Window, notes: &mut Notes) -> Result<(), String>
     let Some((_, shown, tcol, lm, al)) = err_line else {
         if implicit_last {
             notes.caret_skipped.push("location on the implicit empty last line");
+            return Ok(());
+        }
+        // (the parser's end-of-input position for an omitted node at the very end of a text
+        // without final line break: one line past the last one - there is no such line to show;
+        // what that location should be is C16's matter)
+        if l > nlines {
+            notes.caret_skipped.push("location beyond the last line (end of input)");
             return Ok(());
         }
         if cx.reader && srcs.is_empty() {
@@ -2440,6 +2449,11 @@ fn gen_all(ctx: &mut Ctx<C17>) {
                         continue;
                     }
                     emit(ctx, &t, "bom-prefixed", format!("\u{feff}{body}"), target, entry, opts_with(crop, true));
+                    // (of two leading marks the parser ignores one and counts the other as a
+                    // character: the snippet must not drop both)
+                    if entry != Entry::Multi {
+                        emit(ctx, &t, "bom-prefixed", format!("\u{feff}\u{feff}{body}"), target, entry, opts_with(crop, true));
+                    }
                 }
             }
         }
